@@ -237,12 +237,12 @@ def mk_page(serial, seq, flags, pos, packets, complete=True):
     return raw[:22] + struct.pack("<I", W.ogg_crc(raw)) + raw[26:]
 
 
-# Known genuine defect, reported to the maintainer of /verif (see the family report): OggVorbis / OggTheora `_inject`
-# find the comment page by content only (first page whose first packet starts with b"\x03vorbis" / b"\x81theora"), not
-# restricted to info.serial as load is.  A foreign stream whose page starts with that marker in front of the real comment
-# page gets overwritten (C02) and the tags are not saved where load reads them (C01).  With BAIT = True the synthetic
-# foreign stream carries such a page and the multiplexed layouts report it; off until it is a fix: commit / known finding.
-BAIT = False
+# Regression bait for a defect fixed in /repo (oggvorbis.py / oggtheora.py `_inject` used to find the comment page by
+# content only -- first page whose first packet starts with b"\x03vorbis" / b"\x81theora" in ANY stream; now restricted to
+# the stream of the identification header, as load is): the synthetic foreign stream carries a page starting with
+# b"\x03vorbis"; were the search unrestricted again, the multiplexed layouts would report overwritten foreign data (C02) and
+# tags not saved where load reads them (C01).  Coq: C01_ogg_ex_foreign_marker_regression, C02_ogg_ex_foreign_marker_regression.
+BAIT = True
 
 
 def foreign_stream(rng, serial):
@@ -250,7 +250,7 @@ def foreign_stream(rng, serial):
     pages = [mk_page(serial, 0, 2, 0, [b"fishead\x00" + bytes(rng.randrange(256) for _ in range(rng.choice([0, 5, 56])))])]
     seq = 1
     if rng.random() < 0.7:
-        marker = (b"\x03vorbis-not" if BAIT else b"\x04vorbis-not") * 3
+        marker = (rng.choice([b"\x03vorbis-not", b"\x81theora-not"]) if BAIT else b"\x04vorbis-not") * 3
         pages.append(mk_page(serial, seq, 0, -1, [marker + bytes(255 * 2 - 33)], complete=False)); seq += 1
         pages.append(mk_page(serial, seq, 1, 77, [bytes(range(40)), b"", b"OpusTags?"])); seq += 1
     for _ in range(rng.choice([0, 1, 3])):
